@@ -178,7 +178,14 @@ def gen_case(rng, allow245=True):
         ids += rng.sample(ext, rng.choice([1, 2, 3, 5, 8, 20]))
     ids = sorted(set(ids))
     lens = {}
-    if mode < 0.45:
+    crowded = rng.random() < 0.08
+    if crowded:
+        # a crowded identity: most of the 135 object ids populated with tiny values (a page holds up to 82 objects of one byte)
+        ids = sorted(set(basic + rng.sample(ext, rng.choice([70, 76, 77, 82, 83, 100, 128]))))
+        tiny = rng.choice([[1], [1, 1, 1, 2], [0, 1, 1, 1], [1, 2, 3]])
+        for k in ids:
+            lens[k] = rng.choice(tiny)
+    elif mode < 0.45:
         pool = LENS if allow245 else LENS[:-1]
         for k in ids:
             lens[k] = rng.choice(pool)
@@ -230,6 +237,11 @@ def sweep_cases():
         for rc in (1, 2, 3, 4):
             for oid in (0, 1, 2, 3, 4, 5, 6, 7, 8, 0x7F, 0x80, 0x81, 0x82, 0xFE, 0xFF):
                 out.append({'kind': 'devid', 'items': items, 'how': how, 'rc': rc, 'oid': oid, 'cap': 14})
+    # crowded identities: every object id populated with one byte (82 objects fill a page exactly), and 83 objects
+    for n in (135, 83, 82):
+        ids = (list(range(0, 7)) + list(range(0x80, 0x100)))[:n]
+        for oid in (0, 3):
+            out.append({'kind': 'devid', 'items': [[k, ['b', 1, k, 0]] for k in ids], 'how': 'ctor', 'rc': 3, 'oid': oid, 'cap': 8})
     # an empty identity, and single objects at the size limit
     for rc in (1, 2, 3, 4):
         out.append({'kind': 'devid', 'items': [], 'how': 'ctor', 'rc': rc, 'oid': 0, 'cap': 4})
